@@ -130,7 +130,7 @@ D_ME1 = [-1.5, 0.0, 2.5, None]
 D_ME2 = [1.0, None, -2.0, 4.0]
 D_AT1 = ["x", "y", None]
 ALL_RELATIONS = list(range(5 ** 4))
-SUBJECTS = ("input", "stmt", "join")
+SUBJECTS = ("input", "stmt", "join", "joindrop")
 
 
 def presence_relation(p):
@@ -178,6 +178,13 @@ def build_inputs(subject, rels, packed, seed=0):
     if subject in ("input", "stmt"):
         rows = [x for r in rels for x in tag(rel_rows(r), r)]
         return [DS("DS_1", cid + STD, shuffled(rows, seed))]
+    if subject == "joindrop":
+        # second operand: the same keys, a measure with the SAME NAME Me_1 (other values) that the join body drops, so
+        # the join result is DS_1 itself while the remaining Me_1 travels through the join as d1#Me_1
+        rows = [x for r in rels for x in tag(rel_rows(r), r)]
+        rows2 = [dict({k: v for k, v in x.items() if k in ("C_id", "Id_1", "Id_2")}, Me_1=1000.0 + i) for i, x in enumerate(rows)]
+        return [DS("DS_1", cid + STD, shuffled(rows, seed)),
+                DS("DS_2k", cid + [c for c in STD if c[2] == ID or c[0] == "Me_1"], shuffled(rows2, seed, 3))]
     rows1 = [{k: v for k, v in x.items() if k != "Me_2"} for r in rels for x in tag(rel_rows(r), r)]
     rows2 = [x for r in rels for x in tag(rel2_rows(r), r)]
     return [DS("DS_1a", cid + [c for c in STD if c[0] != "Me_2"], shuffled(rows1, seed, 1)),
@@ -190,7 +197,14 @@ def build_script(subject, named_chains):
         return "".join("%s <- DS_1%s;\n" % (n, chain_text(c)) for n, c in named_chains)
     if subject == "stmt":
         return "DS_a := DS_1[filter Id_1 > 0];\n" + "".join("%s <- DS_a%s;\n" % (n, chain_text(c)) for n, c in named_chains)
+    if subject == "joindrop":
+        return "".join("%s <- inner_join(DS_1 as d1, DS_2k as d2 drop d2#Me_1)%s;\n" % (n, chain_text(c)) for n, c in named_chains)
     return "".join("%s <- inner_join(DS_1a as d1, DS_2a as d2)%s;\n" % (n, chain_text(c)) for n, c in named_chains)
+
+
+def reference_script(subject, named_chains):
+    """the script the reference evaluator runs: the join of subject joindrop is the identity on DS_1 by construction"""
+    return build_script("input" if subject == "joindrop" else subject, named_chains)
 
 
 def relation_class(r):
@@ -266,14 +280,14 @@ def check_single(subject, chain, rels, packed, seed=0):
         return _MEMO[key]
     dss = build_inputs(subject, rels, packed, seed)
     script = build_script(subject, [("DS_r", chain)])
-    res = check_script(script, dss, ["DS_r"])["DS_r"]
+    res = check_script(script, dss, ["DS_r"], reference_script(subject, [("DS_r", chain)]))["DS_r"]
     _MEMO[key] = (res[0], res[1], script, dss)
     return _MEMO[key]
 
 
-def check_script(script, dss, names):
+def check_script(script, dss, names, ref_script=None):
     """engine vs reference for the named results -> {name: (deviation or None, detail)}"""
-    exp, _ = R.evaluate(script, {d.name: to_rel(d) for d in dss}, strict=True)
+    exp, _ = R.evaluate(ref_script or script, {d.name: to_rel(d) for d in dss}, strict=True)
     out = refbase.run(script, dss)
     res = {}
     for n in names:
@@ -358,7 +372,8 @@ def report(rec, subject, chain, failing_rels, packed_rels, first_dev, first_deta
     key = "C02:%s:%s:%s:%s" % (">".join(shape), subject, inputclass, dev)
     what = "%s on %s -> %s (found through chain %s)" % (
         script.strip().replace("\n", " "), "; ".join("%s=%s" % (d.name, d.rows) for d in dss), detail, chain_text(chain))
-    rec.violation(key, what, {"script": script, "datasets": [ds_json(d) for d in dss], "result": "DS_r"})
+    rec.violation(key, what, {"script": script, "datasets": [ds_json(d) for d in dss], "result": "DS_r",
+                              "ref_script": reference_script(subject, [("DS_r", shape)])})
 
 
 def run_batch(item, rec):
@@ -372,7 +387,7 @@ def run_batch(item, rec):
     for rels in executions:
         dss = build_inputs(subject, rels, packed, seed)
         try:
-            exp, _ = R.evaluate(script, {d.name: to_rel(d) for d in dss}, strict=True)
+            exp, _ = R.evaluate(reference_script(subject, named), {d.name: to_rel(d) for d in dss}, strict=True)
         except Exception as e:  # noqa: BLE001  the generator only emits chains the evaluator accepts
             rec.tool_error("reference evaluator failed on %s: %r" % (script[:200], e))
             return
@@ -561,7 +576,7 @@ class Check:
     RULE = ("case = (subject, clause chain, input relation). Chains: every well-typed sequence over a 34-clause alphabet "
             "(filter x7, calc x8, keep x6, drop x6, rename x4, sub x3), quick L<=2 + L=3 over a 10-clause sub-alphabet, "
             "thorough L<=3 + L=4 over the sub-alphabet (+ L=4 over the full alphabet on the input subject over 16 presence "
-            "patterns); subjects: input dataset, result of another statement, result of a 2-way inner_join; inputs: all 625 "
+            "patterns); subjects: input dataset, result of another statement, result of a 2-way inner_join, result of a join whose body drops one of two same-named measures; inputs: all 625 "
             "relations over a 2x2 identifier grid with Me_1 in {-1.5, 0, 2.5, null} packed through C_id, chains with sub / "
             "calc identifier also unpacked over the 16 key-presence patterns. distinct = distinct (subject, mode, chain); "
             "non-trivial = the expected result has at least one datapoint.")
@@ -607,5 +622,5 @@ class Check:
     def replay(self, data):
         harness.boot()
         dss = [ds_from_json(j) for j in data["datasets"]]
-        res = check_script(data["script"], dss, [data.get("result", "DS_r")])
+        res = check_script(data["script"], dss, [data.get("result", "DS_r")], data.get("ref_script"))
         return any(v[0] for v in res.values())
